@@ -6,7 +6,7 @@ package route
 
 // edgesOK: every registered link is a non-nil edge no faster than the
 // recorded maximum speed.
-//@ pred edgesOK(net Network) = forall a int64, b int64 :: mapHas(net.neighbors, a) && mapHas(net.neighbors[a], b) ==> net.neighbors[a][b] != nil && net.neighbors[a][b].speed <= net.maximumSpeed
+//@ pred edgesOK(net Network) = forall a int64, b int64 :: mapHas(net.neighbors, a) && mapHas(net.neighbors[a], b) ==> net.neighbors[a][b] != nil && net.neighbors[a][b].speed <= net.maximumSpeed && net.neighbors[a][b].start != nil && net.neighbors[a][b].end != nil && ((net.neighbors[a][b].start.id == a && net.neighbors[a][b].end.id == b) || (net.neighbors[a][b].start.id == b && net.neighbors[a][b].end.id == a))
 //@ pred optionOK(net Network) = net.minimizeOption == Distance || net.minimizeOption == Time
 
 //@ func (net Network) Weight
@@ -55,19 +55,71 @@ package route
 //@   requires [nonnil] net != nil && net.nodes != nil
 //@   panics [exhausted_or_index] true
 //@   ensures [node] result != nil
-//@   ensures [new_node] fresh(result) ==> result.Point == p && result.id == old(net.maxID) + 1 && net.maxID == old(net.maxID) + 1
-//@   ensures [existing_node] !fresh(result) ==> net.maxID == old(net.maxID)
+//@   ensures [new_or_existing] (net.maxID == old(net.maxID) + 1 && fresh(result) && result.Point == p && result.id == net.maxID) || net.maxID == old(net.maxID)
 //@   ensures [settings_kept] net.maximumSpeed == old(net.maximumSpeed) && net.minimizeOption == old(net.minimizeOption) && net.neighbors == old(net.neighbors) && net.nodeMap == old(net.nodeMap) && net.nodes == old(net.nodes) && net.edges == old(net.edges)
 //@   modifies *net
 
 //@ func (net *Network) addNode
 //@   prop C19
 //@   opt trustpre=rtree
-//@   requires [nonnil] net != nil && net.nodes != nil && typeof(n) == *node && n.(*node) != nil
+//@   requires [nonnil] net != nil && net.nodes != nil && net.nodeMap != nil && net.neighbors != nil && typeof(n) == *node && n.(*node) != nil
 //@   panics [collision] mapHas(net.nodeMap, n.(*node).id)
 //@   ensures [registered] mapHas(net.nodeMap, n.(*node).id) && net.nodeMap[n.(*node).id] == n.(*node) && mapHas(net.neighbors, n.(*node).id)
-//@   ensures [others_kept] forall k int64 :: k != n.(*node).id ==> (mapHas(net.nodeMap, k) <==> old(mapHas(net.nodeMap, k))) && net.nodeMap[k] == old(net.nodeMap[k]) && (mapHas(net.neighbors, k) <==> old(mapHas(net.neighbors, k))) && net.neighbors[k] == old(net.neighbors[k])
-//@   ensures [no_links_yet] forall b int64 :: !mapHas(net.neighbors[n.(*node).id], b)
+//@   ensures [others_kept_nodes] forall k int64 :: {mapHas(net.nodeMap, k)} k != n.(*node).id ==> (mapHas(net.nodeMap, k) <==> old(mapHas(net.nodeMap, k)))
+//@   ensures [others_kept_nodevals] forall k int64 :: {net.nodeMap[k]} k != n.(*node).id ==> net.nodeMap[k] == old(net.nodeMap[k])
+//@   ensures [others_kept_nbrs] forall k int64 :: {mapHas(net.neighbors, k)} k != n.(*node).id ==> (mapHas(net.neighbors, k) <==> old(mapHas(net.neighbors, k)))
+//@   ensures [others_kept_nbrvals] forall k int64 :: {net.neighbors[k]} k != n.(*node).id ==> net.neighbors[k] == old(net.neighbors[k])
+//@   ensures [own_link_table] forall k int64 :: k != n.(*node).id && mapHas(net.neighbors, k) ==> net.neighbors[k] != net.neighbors[n.(*node).id]
+//@   ensures [no_links_yet] net.neighbors[n.(*node).id] != nil && (forall b int64 :: !mapHas(net.neighbors[n.(*node).id], b))
 //@   ensures [settings_kept] net.maximumSpeed == old(net.maximumSpeed) && net.minimizeOption == old(net.minimizeOption) && net.neighbors == old(net.neighbors) && net.nodeMap == old(net.nodeMap) && net.nodes == old(net.nodes) && net.edges == old(net.edges) && net.maxID == old(net.maxID)
 //@   opt havoc=rtree.node,rtree.entry,geom.Bounds
 //@   modifies net.nodeMap, net.neighbors, *net.nodes
+
+// netOK: the bookkeeping invariant of a Network between AddLink calls.
+//@ pred netOK(net Network) = net.nodes != nil && net.edges != nil && net.nodeMap != nil && net.neighbors != nil && (forall k int64 :: (mapHas(net.nodeMap, k) <==> mapHas(net.neighbors, k)) && (mapHas(net.neighbors, k) ==> net.neighbors[k] != nil && (forall k2 int64 :: mapHas(net.neighbors, k2) && k2 != k ==> net.neighbors[k2] != net.neighbors[k])) && (mapHas(net.nodeMap, k) ==> net.nodeMap[k] != nil && net.nodeMap[k].id == k )) && edgesOK(net)
+
+//@ func (net *Network) AddLink
+//@   prop C19
+//@   mode real
+//@   opt trustpre=rtree
+//@   opt havoc=rtree.node,rtree.entry,geom.Bounds
+//@   requires [net] net != nil && netOK(*net)
+//@   requires [link] len(l) >= 1
+//@   panics [self_link_or_exhausted] true
+//@   ensures [fastest] net.maximumSpeed >= speed && net.maximumSpeed >= old(net.maximumSpeed) && (net.maximumSpeed == speed || net.maximumSpeed == old(net.maximumSpeed))
+//@   ensures [registered] fid != tid && mapHas(net.neighbors, fid) && mapHas(net.neighbors, tid) && mapHas(net.neighbors[fid], tid) && mapHas(net.neighbors[tid], fid) && net.neighbors[fid][tid] == e && net.neighbors[tid][fid] == e
+//@   ensures [edge_values] e != nil && fresh(e) && e.speed == speed && e.time == e.length / speed && e.length == (len(l) == 0 ? 0 : lenTo(l, len(l) - 1)) && e.start == from && e.end == to && from.id == fid && to.id == tid
+//@   ensures [settings_kept] net.minimizeOption == old(net.minimizeOption) && net.neighbors == old(net.neighbors) && net.nodeMap == old(net.nodeMap) && net.nodes == old(net.nodes) && net.edges == old(net.edges)
+//@   ensures [invariant_ids] forall k int64 :: (mapHas(net.nodeMap, k) <==> mapHas(net.neighbors, k)) && (mapHas(net.neighbors, k) ==> net.neighbors[k] != nil)
+//@   ensures [invariant_tables] forall k int64, k2 int64 :: mapHas(net.neighbors, k) && mapHas(net.neighbors, k2) && k2 != k ==> net.neighbors[k2] != net.neighbors[k]
+//@   ensures [invariant_nodes] forall k int64 :: mapHas(net.nodeMap, k) ==> net.nodeMap[k] != nil && net.nodeMap[k].id == k
+//@   ensures [invariant_edges] edgesOK(*net)
+//@   opt noframe=sort:map!Int!Ptr@Pgithub_com_ctessum_geom_route_edge!dom,sort:map!Int!Ptr@Pgithub_com_ctessum_geom_route_edge!val
+//@   modifies *net, net.nodeMap, net.neighbors, *net.nodes, *net.edges
+
+//@ func NewNetwork
+//@   prop C19
+//@   opt trustpre=rtree
+//@   ensures [empty_network] result != nil && fresh(result) && netOK(*result) && result.minimizeOption == m && result.maximumSpeed == 0 && (forall k int64 :: !mapHas(result.nodeMap, k))
+
+// the route found: link k joins path nodes k and k+1
+//@ spec linkOf(net Network, nodes []graph.Node, k int) *edge = net.neighbors[nodes[k].(*node).id][nodes[k+1].(*node).id]
+//@ spec chainDist(net Network, nodes []graph.Node, k int) float64 decreases k = k <= 0 ? 0 : chainDist(net, nodes, k-1) + linkOf(net, nodes, k-1).length
+//@ spec chainTime(net Network, nodes []graph.Node, k int) float64 decreases k = k <= 0 ? 0 : chainTime(net, nodes, k-1) + linkOf(net, nodes, k-1).time
+
+//@ func (net Network) ShortestRoute
+//@   prop C19
+//@   mode real
+//@   opt trustpre=rtree
+//@   nosafety
+//@   requires [net] netOK(net) && optionOK(net)
+//@   panics [empty_network_or_foreign_object] true
+//@   ensures [links] len(nodes) >= 1 ? len(route) == len(nodes) - 1 : len(route) == 0
+//@   ensures [link_k] forall k int :: 0 <= k && k < len(route) ==> route[k] == linkOf(net, nodes, k).LineString
+//@   ensures [totals] distance == chainDist(net, nodes, len(route)) && time == chainTime(net, nodes, len(route))
+//@   modifies nothing
+//@   loop 1 `for i := 0; i < len(nodes)-1; i++`
+//@     invariant 0 <= i && (len(nodes) >= 1 ? i <= len(nodes) - 1 : i == 0) && len(route) == i && (fresh(route) || cap(route) == 0) && distance == chainDist(net, nodes, i) && time == chainTime(net, nodes, i)
+//@     invariant [path_nodes] forall j int :: 0 <= j && j < len(nodes) ==> typeof(nodes[j]) == *node && nodes[j].(*node) != nil
+//@     invariant [link_k] forall k int :: 0 <= k && k < i ==> route[k] == linkOf(net, nodes, k).LineString
+//@     decreases len(nodes) - i
